@@ -214,15 +214,14 @@ func goState(id string) (state, frames string, ok bool) {
 	return "", "", false
 }
 
-// parked: the goroutine waits for something (a lock, a channel): it is neither
-// running nor waiting for a processor.  Only such a goroutine counts as
-// blocked; one that is merely slow (overloaded machine) does not.
+// parked: the goroutine waits for a lock or a channel (wait reasons of the
+// runtime: "sync.RWMutex.Lock", "sync.Mutex.Lock", "semacquire", "chan receive",
+// "select", …): it is neither running nor waiting for a processor, the GC or
+// the network.  Only such a goroutine counts as blocked; one that is merely
+// slow (overloaded machine) does not.
 func parked(state string) bool {
-	switch state {
-	case "running", "runnable", "syscall", "":
-		return false
-	}
-	return true
+	return strings.HasPrefix(state, "sync.") || strings.HasPrefix(state, "semacquire") ||
+		strings.HasPrefix(state, "chan ") || strings.HasPrefix(state, "select")
 }
 
 // guard waits for the goroutine started by start (which reports its id first,
